@@ -155,9 +155,9 @@ namespace igris
             {
                 uint16_t sz;
                 load(sz);
-                if (sz > maxsz)
-                    sz = maxsz;
-                load_data(dat, sz);
+                uint16_t readsz = sz > maxsz ? maxsz : sz;
+                load_data(dat, readsz);
+                skip(sz - readsz);
             }
 
             void load(int8_t &i) { load_data((char *)&i, sizeof(i)); }
